@@ -77,7 +77,7 @@ theorem read_back_applies_identically (le : LayerEnv) (hok : le.Ok) (hnp : le.pa
     ∃ l' le', writeToLayerDir le layer = some l' ∧ readFromLayerDir lp l' = some le' ∧
       ∀ s env, le'.apply s env = le.apply s env := by
   obtain ⟨l', h, g1, g2, g3, f⟩ := writeToLayerDir_spec le layer hl hok.proc
-  obtain ⟨le', hr, ea, eb, el, ep, epb, epl⟩ := read_written le hok lp l' g1 g2 g3
+  obtain ⟨le', hr, ea, eb, el, ep, _, epb, epl⟩ := read_written le hok lp l' g1 g2 g3
   refine ⟨l', le', h, hr, fun s env => apply_congr le le' ea eb el ep ?_ ?_ s env⟩
   · have hsub : ∀ sub : LSub, l'.get sub.dirName = layer.get sub.dirName :=
       fun sub => f _ (sub_ne_env sub).1 (sub_ne_env sub).2.1 (sub_ne_env sub).2.2
